@@ -145,7 +145,8 @@ int cp_ecss_ver(bn_t e, bn_t s, const uint8_t *msg, size_t len, const ec_t q) {
 
 		ec_curve_get_ord(n);
 
-		if (bn_sign(e) == RLC_POS && bn_sign(s) == RLC_POS && !bn_is_zero(s)) {
+		if (bn_sign(e) == RLC_POS && bn_sign(s) == RLC_POS && !bn_is_zero(s) &&
+				!ec_is_infty(q) && ec_on_curve(q)) {
 			if (bn_cmp(e, n) == RLC_LT && bn_cmp(s, n) == RLC_LT) {
 				ec_mul_sim_gen(p, s, q, e);
 				ec_get_x(rv, p);
@@ -171,6 +172,11 @@ int cp_ecss_ver(bn_t e, bn_t s, const uint8_t *msg, size_t len, const ec_t q) {
 				result = (result == RLC_NE ? 0 : 1);
 
 				if (ev->used != e->used) {
+					result = 0;
+				}
+
+				/* The identity has no x-coordinate to hash. */
+				if (ec_is_infty(p)) {
 					result = 0;
 				}
 			}
